@@ -31,11 +31,16 @@ thread_local! {
 pub fn judge_line(l: &mut Local, line: &[u8], decode: bool, prop: &'static str) {
     let mut p = Parser::new();
     let d0 = p.state();
-    let (exp, _) = asm::step(&MState::Closed, line, decode, subj::NOALLOC);
+    let (exp_alloc, _) = asm::step(&MState::Closed, line, decode, false);
+    let (exp_noalloc, _) = asm::step(&MState::Closed, line, decode, true);
+    let capacity_zone = exp_alloc != exp_noalloc;
+    let exp = if subj::NOALLOC { exp_noalloc } else { exp_alloc };
     let out = p.parse(line, decode);
     let d1 = p.state();
     l.class(out.class());
-    l.outcome(out.digest());
+    // C18: where the no-allocator expectation differs from the allocator one (a documented capacity
+    // is exceeded) every build records the same token
+    l.outcome(if capacity_zone { crate::par::CAP_TOKEN } else { out.digest() });
     if out.is_ok() {
         l.nontrivial();
     }
